@@ -482,6 +482,15 @@ def autoconnect(ctx, dev_id, registered, other, policy, via, faults=(), position
 
             async def go():
                 D = CS.reset_discover(cloud.factory, "US", acct, pw)
+                if via == "twice":
+                    # one discovery session, two devices/attempts: the first one meets a failing cloud (the faults), the
+                    # second one - same Discover state - a healthy cloud
+                    try:
+                        await D._authenticate_device(dev)
+                    except Exception:  # noqa: BLE001
+                        pass
+                    cloud.faults = []
+                    return await D._authenticate_device(dev)
                 return await (D.connect(dev) if via == "connect" else D._authenticate_device(dev))
             result = net.run(go())
     except Exception as e:  # noqa: BLE001
@@ -532,6 +541,22 @@ def autoconnect_cases(ctx, rep):
                           "device_key": r["key"]})
             elif via != "_authenticate_device" and r["online"] is not True:
                 rep.fail("oracle", "connected-device-not-refreshed", inp, {"online": r["online"]})
+    # one session, the cloud fails during the FIRST login (HTTP error / timeouts / API error at the login id, the login or the first
+    # getToken), then is healthy: the second attempt in the same session must authenticate and every request must verify
+    for k, faults in enumerate([[("http",)], [("none",), ("http",)], [("timeout",)] * 3, [("none",), ("api", 3004)],
+                                [("none",), ("none",), ("http",)]]):
+        registered = ("little", "big")[k % 2]
+        r = autoconnect(ctx, 123456 + k, registered, "absent", ("noentry",), "twice", faults=list(faults))
+        rep.case(("auto-twice", k), "session-after-failed-login")
+        inp = {"device_id": 123456 + k, "registered_under": registered, "faults_during_first_attempt": [list(map(str, f)) for f in faults],
+               "via": "two _authenticate_device calls in one discovery session"}
+        rejected = [x for x in r["cloud"].rejected]
+        if rejected:
+            x = rejected[0]
+            rep.fail("oracle", "request-rejected-by-reference-server", inp, {"path": x["path"], "reason_code": x["check"], "fields_as_received": x["seen"]})
+        if not (r["exc"] is None and r["result"] and (r["token"], r["key"]) == r["good"]):
+            rep.fail("oracle", "session-not-recovered-after-failed-login", inp,
+                     {"result": r["result"], "exception": repr(r["exc"])[:200], "device_token": r["token"]})
     # controls: nothing registered under either byte order -> not authenticated, a cloud error or False, never foreign credentials
     for pol in (("noentry",), ("bogus", rhex(rng, 64), rhex(rng, 32)), ("api", 3004)):
         for via in ("connect", "discover"):
